@@ -437,6 +437,61 @@ def patterns():
     ]
 
 
+LONG_NAMES = {'x': 'x_' + 'measured_signal_with_a_long_name_' * 3, 'y': 'y_' + 'another_signal_with_a_long_name_' * 3}
+
+
+def rename(f, names=None):
+    """the same formula over other variable names (default: identifiers of about 100 characters)"""
+    names = LONG_NAMES if names is None else names
+    if not isinstance(f, tuple):
+        return f
+    if f[0] == 'var':
+        return ('var', names.get(f[1], f[1]))
+    if f[0] == 'const':
+        return f
+    return tuple(rename(g, names) if isinstance(g, tuple) and g and isinstance(g[0], str) and not _is_interval(g) else g for g in f)
+
+
+def _is_interval(g):
+    return len(g) == 2 and all(isinstance(x, (int, float)) for x in g)
+
+
+def sibling_formulas(dense=False):
+    """three operators: a binary connective over one operand without future and one operand with a bounded future - the shape in which
+    pastify() has to DELAY a past / event / plain operand (F(2) never contains it: it needs an operator on either side)"""
+    px, py = PX, PY
+    past = [px, ('not', px), ('once', (0, 1), px), ('once', (1, 2), px), ('historically', (1, 2), px), ('historically', (0, 2), px),
+            ('once', None, px), ('historically', None, px), ('since', None, px, py), ('since', (0, 1), px, py), ('since', (1, 2), py, px)]
+    if not dense:
+        past += [('prev', px), ('s_prev', px), ('rise', px), ('fall', px)]
+    fut = [('eventually', (0, 1), py), ('eventually', (1, 2), py), ('always', (0, 2), py), ('always', (1, 1), px)]
+    if not dense:
+        fut += [('next', py), ('s_next', px), ('until', (0, 1), py, px)]
+    out = []
+    for b in ('and', 'or', 'implies', 'iff', 'xor'):
+        for p in past:
+            for q in fut:
+                out.append((b, p, q))
+                out.append((b, q, p))
+    return out
+
+
+def chain_formulas(n):
+    """left-deep and right-deep chains of n operands of one binary connective (grouping of long unparenthesised chains)"""
+    atoms = [PX, PY, ('pred', '<=', X, C1), ('pred', '>', Y, C0), ('pred', '>=', X, C2), ('pred', '<', Y, C1)]
+    out = []
+    for b in ('and', 'or', 'implies', 'iff', 'xor', ('since', None), ('until', None), ('since', (0, 1)), ('until', (0, 1))):
+        mk = (lambda l, r, b=b: (b, l, r)) if isinstance(b, str) else (lambda l, r, b=b: (b[0], b[1], l, r))
+        left = atoms[0]
+        for a in atoms[1:n]:
+            left = mk(left, a)
+        right = atoms[n - 1]
+        for a in reversed(atoms[:n - 1]):
+            right = mk(a, right)
+        out += [left, right]
+    return out
+
+
 I_BIG = ((0, 4), (2, 5), (4, 4), (3, 7))
 
 
